@@ -924,9 +924,12 @@ func pairScenario(res *lib.Result, cs *Case, a, b string, iters int) {
 			c.Delete(a)
 		}
 	}()
-	transient, lost, wrong := 0, 0, 0
+	transient, lost, wrong, lenWrapped := 0, 0, 0, 0
 	for i := 0; i < iters; i++ {
 		c.Set(b, i, 1000)
+		if c.VerifLen() < 0 || c.VerifLen() > 1<<40 {
+			lenWrapped++ // haxmap's item counter wrapped around: the pre-fix Cleanup sized make() with it and panicked
+		}
 		v, ok := c.Get(b)
 		switch {
 		case ok && v != i:
@@ -950,6 +953,9 @@ func pairScenario(res *lib.Result, cs *Case, a, b string, iters int) {
 	wg.Wait()
 	res.Count("pair/"+a+"/"+b, true)
 	res.Hit("family:pair(two callers, two keys, no cleaner)")
+	if lenWrapped > 0 {
+		res.Hit("pair:map-Len()-wrapped-around(pre-fix Cleanup panicked on it)")
+	}
 	if wrong > 0 {
 		res.Violate("get-returned-superseded-value", fmt.Sprintf("pair %s/%s: %d Gets returned a value other than the one just set", a, b, wrong), cs)
 	}
